@@ -177,6 +177,9 @@ MUTANTS = {
         ('emsg-start-floor', 'dashlive/server/events/repeating_event_base.py', 'seg_end = (seg_end * self.timescale) // representation.timescale', 'seg_end = (seg_end * self.timescale) // representation.timescale + 1'),
     ],
     'C01': [
+        ('cp-window-late', 'dashlive/server/requesthandler/manifest_context.py', "        if timing:\n            opts.availabilityStartTime = timing.availabilityStartTime\n            opts.timeShiftBufferDepth = timing.timeShiftBufferDepth\n            self.update_timing(timing)\n\n        self.cgi_params = self.calculate_cgi_parameters(\n            audio=audio_adps, video=video)\n", "        self.cgi_params = self.calculate_cgi_parameters(\n            audio=audio_adps, video=video)\n        if timing:\n            opts.availabilityStartTime = timing.availabilityStartTime\n            opts.timeShiftBufferDepth = timing.timeShiftBufferDepth\n            self.update_timing(timing)\n"),
+        ('cp-depth-not-forwarded', 'dashlive/server/requesthandler/manifest_context.py', "            opts.timeShiftBufferDepth = timing.timeShiftBufferDepth\n", ""),
+        ('cp-audio-gets-video-params', 'dashlive/server/requesthandler/manifest_context.py', "            audio.append_cgi_params(self.cgi_params.audio)", "            audio.append_cgi_params(self.cgi_params.video)"),
         ('fl-last-off', 'dashlive/mpeg/dash/representation.py', 'last_fragment = self.start_number + int(scale_timedelta(', 'last_fragment = self.start_number + 1 + int(scale_timedelta('),
         ('fl-first-narrow', 'dashlive/mpeg/dash/representation.py', '            int(self.timescale * timing.timeShiftBufferDepth // self.segment_duration) - 1)', '            int(self.timescale * timing.timeShiftBufferDepth // self.segment_duration) + 1)'),
         ('snt-no-leeway', 'dashlive/mpeg/dash/representation.py', '        fta = timing.firstAvailableTime - timing.leeway\n', '        fta = timing.firstAvailableTime\n'),
